@@ -434,6 +434,10 @@ V("TBf-epoch-1970", "C12", "TBf",
   ("timestamp.py", "EPOCH = np.datetime64('1904-01-01 00:00:00', 's')", "EPOCH = np.datetime64('1970-01-01 00:00:00', 's')"))
 V("TBf-benign-literal", "C12", None,
   ("timestamp.py", "    's': 1.0 / 2 ** -64,", "    's': float(2 ** 64),"))
+V("TT1-absolute-track-from-rounded-increment", "C12", "TT1",
+  ("tdms.py", "                (relative_time * unit_correction).astype(time_type))", "                (np.arange(len(self)) * int(increment * unit_correction)).astype(time_type))"))
+V("NK2-array-step-per-microsecond-only", "C12", "NK2",
+  ("timestamp.py", "    def as_datetime64(self, resolution='us'):\n        \"\"\" Convert to an array of numpy datetime64 objects", "    def as_datetime64(self, resolution='ms'):\n        \"\"\" Convert to an array of numpy datetime64 objects"))
 V("TT1-linspace-off-by-one", "C12", "TT1",
   ("tdms.py", "            offset + (len(self) - 1) * increment,\n", "            offset + len(self) * increment,\n"))
 
